@@ -905,7 +905,9 @@ class Consumer(object):
         if self._msg_block_d:
             # We are still working through the last block of messages...
             # We have to wait until it's done, then process this response
+            # ...and if it then fails (to decode), that is a failed fetch
             self._msg_block_d.addCallback(lambda _: self._handle_fetch_response(responses))
+            self._msg_block_d.addErrback(self._handle_fetch_error)
             return
 
         # No ongoing processing, great, let's get some started.
